@@ -72,10 +72,25 @@ func Harness_C06_description_rights() {
 	globals.maxTagCount = 8
 	actor := w.members[verifChoose("actor", len(w.members))]
 	sess := w.sess[actor]
-	base := ClientComMessage{Id: "r1", AsUser: actor.UserId(), AuthLvl: int(auth.LevelAuth), Original: t.name, RcptTo: t.name,
+	// the session's level: the trusted part of the description can be written by root-level sessions only - and,
+	// like the rest of the description, only by the owner
+	lvl := auth.LevelAuth
+	if verifNondetBool("rootLevel") {
+		lvl = auth.LevelRoot
+		sess.authLvl = auth.LevelRoot
+	}
+	base := ClientComMessage{Id: "r1", AsUser: actor.UserId(), AuthLvl: int(lvl), Original: t.name, RcptTo: t.name,
 		Timestamp: types.TimeNow(), sess: sess, init: true}
 	auth0, anon0 := t.accessAuth, t.accessAnon
-	switch verifChoose("what", 3) {
+	switch verifChoose("what", 4) {
+	case 3:
+		msg := base
+		msg.Set = &MsgClientSet{Id: "r1", Topic: t.name, MsgSetQuery: MsgSetQuery{Desc: &MsgSetDesc{Trusted: "trusted-v2"}}}
+		msg.MetaWhat = constMsgMetaDesc
+		t.handleMeta(&msg)
+		if t.trusted != nil || fx.store.topics[t.name].Trusted != nil {
+			verifAssert(actor == t.owner && lvl == auth.LevelRoot, "trusted-description-changed-only-by-the-owner-at-root-level")
+		}
 	case 0:
 		msg := base
 		msg.Set = &MsgClientSet{Id: "r1", Topic: t.name, MsgSetQuery: MsgSetQuery{Desc: &MsgSetDesc{Public: "public-v2"}}}
